@@ -1,0 +1,28 @@
+// Copyright (C) 2026 Storj Labs, Inc.
+// See LICENSE for copying information.
+
+//go:build verif
+// +build verif
+
+package drpcpool
+
+// VerifCounts reports, for external verification harnesses, the count field
+// of the global list, the number of entries reachable by walking it, and the
+// same two numbers for every per-key list.
+func (p *Pool[K, V]) VerifCounts() (orderCount, orderLen int, keyCount, keyLen map[K]int) {
+	p.mu.Lock()
+	defer p.mu.Unlock()
+
+	orderCount = p.order.count
+	for ent, n := p.order.head, 0; ent != nil && n < 1<<16; ent, n = ent.global.next, n+1 {
+		orderLen++
+	}
+	keyCount, keyLen = make(map[K]int), make(map[K]int)
+	for k, l := range p.entries {
+		keyCount[k] = l.count
+		for ent, n := l.head, 0; ent != nil && n < 1<<16; ent, n = ent.local.next, n+1 {
+			keyLen[k]++
+		}
+	}
+	return orderCount, orderLen, keyCount, keyLen
+}
